@@ -102,6 +102,27 @@ impl FencedString {
         }
     }
 
+    /// the byte offset at which the character with this index starts (the end of the text beyond the last one)
+    pub(crate) fn byte_of_char(&self, idx: usize) -> usize {
+        if self.char_starts.is_empty() {
+            idx.min(self.buffer.len())
+        } else {
+            self.char_starts
+                .get(idx)
+                .cloned()
+                .unwrap_or(self.buffer.len())
+        }
+    }
+
+    /// the index of the character that starts at this byte offset (a character boundary)
+    pub(crate) fn char_of_byte(&self, byte: usize) -> usize {
+        if self.char_starts.is_empty() {
+            byte
+        } else {
+            self.char_starts.partition_point(|start| *start < byte)
+        }
+    }
+
     pub(crate) fn len(&self) -> usize {
         if self.char_starts.is_empty() {
             self.buffer.len()
